@@ -142,3 +142,54 @@ def jacobian(h, x, y, step=1.0):
     cosdec = -np.cos(dec * D2R)
     return ((fac * 3600 * wrap(rp - rm) * cosdec).astype("f8"), (fac * 3600 * wrap(r0p - r0m) * cosdec).astype("f8"),
             (fac * 3600 * (dp - dm)).astype("f8"), (fac * 3600 * (d0p - d0m)).astype("f8"))
+
+
+def inverse_fit_residual(h, ng=40):
+    """max residual, in pixels over an ng x ng grid on the image, of the BEST
+    least-squares polynomial inverse of the distortion of total degree
+    (forward order + 1) -- i.e. the 'fitted-polynomial accuracy' an
+    implementation that fits such an inverse can reach.  Independent fit:
+    scaled variables, numpy lstsq."""
+    gx = np.linspace(1, NAX[0], ng)
+    gy = np.linspace(1, NAX[1], ng)
+    X, Y = [a.ravel() for a in np.meshgrid(gx, gy)]
+    u = X - h["crpix1"]
+    v = Y - h["crpix2"]
+    proj = h["ctype1"][4:].strip()
+    if proj == "-TAN-SIP":
+        ao = h["a_order"]
+        du = 0
+        dv = 0
+        for p in range(ao + 1):
+            for q in range(ao + 1):
+                du = du + h.get("a_%d_%d" % (p, q), 0.0) * u ** p * v ** q
+                dv = dv + h.get("b_%d_%d" % (p, q), 0.0) * u ** p * v ** q
+        U, V, tu, tv, scale, const, deg = u + du, v + dv, u, v, 1.0, False, ao + 1
+    else:
+        xi = h["cd1_1"] * u + h["cd1_2"] * v
+        eta = h["cd2_1"] * u + h["cd2_2"] * v
+
+        def g(k):
+            return h.get(k, 0.0)
+        U = (g("pv1_0") + g("pv1_1") * xi + g("pv1_2") * eta + g("pv1_4") * xi ** 2 + g("pv1_5") * xi * eta
+             + g("pv1_6") * eta ** 2 + g("pv1_7") * xi ** 3 + g("pv1_8") * xi ** 2 * eta
+             + g("pv1_9") * xi * eta ** 2 + g("pv1_10") * eta ** 3)
+        V = (g("pv2_0") + g("pv2_1") * eta + g("pv2_2") * xi + g("pv2_4") * eta ** 2 + g("pv2_5") * eta * xi
+             + g("pv2_6") * xi ** 2 + g("pv2_7") * eta ** 3 + g("pv2_8") * eta ** 2 * xi
+             + g("pv2_9") * eta * xi ** 2 + g("pv2_10") * xi ** 3)
+        tu, tv = xi, eta
+        scale = np.sqrt(abs(h["cd1_1"] * h["cd2_2"] - h["cd1_2"] * h["cd2_1"]))
+        const, deg = True, 4
+    su = max(np.abs(U).max(), np.abs(V).max())
+    a = U / su
+    b = V / su
+    cols = []
+    for d in range(0 if const else 1, deg + 1):
+        for j in range(d + 1):
+            cols.append(a ** (d - j) * b ** j)
+    A = np.array(cols).T
+    r = 0.0
+    for t in (tu, tv):
+        c = np.linalg.lstsq(A, t, rcond=None)[0]
+        r = max(r, float(np.abs(A @ c - t).max()))
+    return r / scale
